@@ -3,6 +3,16 @@
 GRAMMAR_DEFAULT = {"max_rules": 5, "min_rules": 2, "modes": ["text", "text", "bytes", "bits"], "max_depth": 2}
 
 CHECKS = {
+    "C20": {
+        "sim": "protosim",
+        "quick": {"runs": 20000, "wall_s": 80, "runs_per_spec": 12, "run_wall_cap": 12, "proto": {}, "faults": True},
+        "thorough": {"runs": 1000000, "wall_s": 1500, "runs_per_spec": 20, "run_wall_cap": 30, "proto": {"max_types": 7, "max_states": 4}, "faults": True},
+    },
+    "C19": {
+        "sim": "protosim",
+        "quick": {"runs": 20000, "wall_s": 80, "runs_per_spec": 12, "run_wall_cap": 12, "proto": {}, "faults": True},
+        "thorough": {"runs": 1000000, "wall_s": 1500, "runs_per_spec": 20, "run_wall_cap": 30, "proto": {"max_types": 7, "max_states": 4}, "faults": True},
+    },
     "C13": {
         "sim": "fragsim",
         "quick": {"runs": 60000, "wall_s": 60, "runs_per_spec": 40, "run_wall_cap": 10, "grammar": GRAMMAR_DEFAULT, "ambiguous_regex_rate": 0.1},
